@@ -480,7 +480,7 @@ impl Database {
                         .map(Cow::Owned)
                         .ok_or_else(|| {
                             eyre::eyre!(
-                                "unsupported types or division by zero for {:?} in UPDATE SET",
+                                "unsupported types, division by zero or integer overflow for {:?} in UPDATE SET",
                                 aop
                             )
                         })
